@@ -78,8 +78,20 @@ def parse_output(text):
     return res
 
 
-def _run_proc(cmd, text, env=None, timeout=3600):
-    p = subprocess.run(cmd, input=text.encode(), stdout=subprocess.PIPE, stderr=subprocess.PIPE, env=env, timeout=timeout)
+# stack size (KiB) of the implementation harness; None = the system's limit.  A check that looks for stack use growing with
+# the input (C14) sets it low, so that the growth shows at input sizes the quick tier can afford.
+STACK_KB = None
+
+
+def _limit_stack():
+    import resource
+    n = STACK_KB * 1024
+    resource.setrlimit(resource.RLIMIT_STACK, (n, n))
+
+
+def _run_proc(cmd, text, env=None, timeout=3600, limit_stack=False):
+    p = subprocess.run(cmd, input=text.encode(), stdout=subprocess.PIPE, stderr=subprocess.PIPE, env=env, timeout=timeout,
+                       preexec_fn=_limit_stack if (limit_stack and STACK_KB) else None)
     return p.stdout.decode("latin-1"), p.stderr.decode("latin-1"), p.returncode
 
 
@@ -95,7 +107,7 @@ def run_impl(scenarios, harness, jobs=16, per_timeout=20):
     res = {}
     parts = chunks(scenarios, jobs)
     with cf.ThreadPoolExecutor(max_workers=jobs) as ex:
-        futs = [ex.submit(_run_proc, [harness["drv"], str(per_timeout)], "".join(s.text() for s in part), env) for part in parts]
+        futs = [ex.submit(_run_proc, [harness["drv"], str(per_timeout)], "".join(s.text() for s in part), env, 3600, True) for part in parts]
         for f in futs:
             out, err, rc = f.result()
             res.update(parse_output(out))
